@@ -38,7 +38,9 @@ KeyTypes == {"rsa", "ecdsa", "dsa", "ed25519", "rsapss", "p384", "p521", "ed448"
 Meaningful(c) ==
   /\ (c.site \in SigSites => c.cls \in {"none", "bitflip", "empty", "trunc", "extend", "otherkey", "otherdata", "declother", "degenerate",
                                           "misplaced", "replayed", "unadvertised"})
-  /\ (c.cls = "unadvertised" => c.site = "ske12" /\ c.ver = 3 /\ c.kt \in {"rsa", "ecdsa"})
+  \* (ccv13: the client's CertificateVerify made with RSA PKCS#1 v1.5 / SHA-1 schemes, which TLS 1.3 has no use for)
+  /\ (c.cls = "unadvertised" => \/ (c.site = "ske12" /\ c.ver = 3 /\ c.kt \in {"rsa", "ecdsa"})
+                                \/ (c.site = "ccv13" /\ c.kt = "rsa"))
   /\ (c.cls = "misplaced" => c.site = "dcsig")
   \* degenerate (r, s) pairs exist for the (EC)DSA family only
   /\ (c.site \in SigSites /\ c.cls = "degenerate" => c.kt \in {"dsa", "ecdsa", "p384", "p521", "bp256"})
